@@ -3,7 +3,7 @@ import random
 from fractions import Fraction
 from . import common as C, gen as G, drv as D, sweep as S, exact as X
 
-U = {"s": 2.0 ** -24, "d": 2.0 ** -53}
+U = {"s": 2.0 ** -24, "d": 2.0 ** -53, "c": 2.0 ** -24, "z": 2.0 ** -53}
 
 
 def new_values(rng, M, mode="float"):
@@ -15,6 +15,20 @@ def new_values(rng, M, mode="float"):
             if M.rowind[k] == j:
                 vals[k] = (abs(vals[k]) + 1.0) * (4.0 + M.n * 0.5) * rng.choice([-1, 1])
     return vals
+
+
+def to_prec(rng, M, prec):
+    """the matrix in the precision of the run: complex precisions get an imaginary part of at most the size of the real one
+    (exact zeros stay exact zeros), single precisions are rounded"""
+    if prec in "cz" and not M.cplx:
+        M = G.Mat(M.n, M.colptr, M.rowind, [((v, rng.uniform(-1, 1) * abs(v)) if v != 0.0 else (0.0, 0.0)) for v in M.vals], True)
+    if prec in "sc": G.round_single(M)
+    return M
+
+
+def rhs_prec(rng, n, prec):
+    b = rand_rhs(rng, n, prec in "sc")
+    return [(v, w) for v, w in zip(b, rand_rhs(rng, n, prec in "sc"))] if prec in "cz" else b
 
 
 def gen_history(rng, hid, prec="d", maxlen=8):
@@ -36,8 +50,13 @@ def gen_history(rng, hid, prec="d", maxlen=8):
             ops.append({"op": kind, "vals": vals, "u": rng.choice([1.0, 0.5, 0.1]), "P": rng.choice([1, 2, 4]), "colperm": rng.randint(0, 3)})
             cur_vals = vals; have = True
         elif kind == "refactor":
-            vals = new_values(rng, M)
-            ops.append({"op": "refactor", "vals": vals, "usepr": rng.choice([0, 1]), "u": rng.choice([1.0, 0.5, 0.1, 0.0]), "P": rng.choice([1, 2, 4])})
+            if rng.random() < 0.35:
+                # values in general position (no boosted diagonal): old pivots fail the threshold in some columns, so pivot reuse has to fall back
+                gv = G.values(rng, "float"); vals = [gv() for _ in M.vals]
+                ops.append({"op": "refactor", "vals": vals, "usepr": 1, "u": rng.choice([1.0, 1.0, 0.5]), "P": rng.choice([1, 2, 4])})
+            else:
+                vals = new_values(rng, M)
+                ops.append({"op": "refactor", "vals": vals, "usepr": rng.choice([0, 1]), "u": rng.choice([1.0, 0.5, 0.1, 0.0]), "P": rng.choice([1, 2, 4])})
             cur_vals = vals
         elif kind == "refactor_same":
             ops.append({"op": "refactor", "vals": list(cur_vals), "usepr": 1, "u": ops_last_u(ops), "P": rng.choice([1, 2, 4]), "expect_same_pivots": True})
@@ -55,7 +74,8 @@ def gen_fallback_history(rng, hid, prec="d"):
     """pivot reuse that must fall back in SOME columns while other workers are busy elsewhere: many independent diagonal blocks
     (wide elimination forest), first factorization with diagonal pivots, then `usepr = YES` refactorizations whose new values make
     the old (diagonal) pivot of a few columns fail the threshold in favour of a row that is the old pivot row of an ancestor column."""
-    nb = rng.randint(8, 24); bs = rng.choice([4, 6, 8]); n = nb * bs
+    nb = rng.randint(8, 24) if prec in "ds" else rng.randint(6, 10)      # (complex factors are judged through the 2n x 2n real embedding)
+    bs = rng.choice([4, 6, 8]); n = nb * bs
     pat = set()
     for b in range(nb):
         o = b * bs
@@ -108,24 +128,31 @@ def rand_rhs(rng, n, single):
 
 
 def script_of(h, rng):
-    M = h["M"]; n = M.n; single = h["prec"] == "s"
+    M = h["M"]; n = M.n; single = h["prec"] in "sc"; cplx = h["prec"] in "cz"
+    if cplx and not M.cplx:
+        # complex copies of the drivers: every value v at nonzero position k becomes v * (1 + i t_k) with t_k fixed for the history, so that
+        # "same values" and "values scaled by a power of two" mean the same as in the real case
+        tk = [rng.uniform(-1, 1) for _ in M.vals]
+        for o in h["ops"]:
+            if "vals" in o: o["vals"] = [(v, v * t) for v, t in zip(o["vals"], tk)]
+        M = h["M"] = G.Mat(n, M.colptr, M.rowind, [(v, v * t) for v, t in zip(M.vals, tk)], True)
     s = "ienv %d %d 200 200 100 -50 -50 -30\n" % (h["panel"], h["relax"])
     s += G.script_mat(0, M, single=single)
     rhs_list = []
     import struct
     r1 = (lambda x: struct.unpack("f", struct.pack("f", x))[0]) if single else (lambda x: x)
     for o in h["ops"]:
-        b = rand_rhs(rng, n, single); rhs_list.append(b)
-        s += G.script_rhs(1, n, 1, n, [b], False, single)
+        b = rhs_prec(rng, n, h["prec"]); rhs_list.append(b)
+        s += G.script_rhs(1, n, 1, n, [b], cplx, single)
         if o["op"] in ("first", "destroy_first"):
             if o["op"] == "destroy_first": s += "destroy\n"
-            o["vals"] = [r1(v) for v in o["vals"]]
-            s += "setvals 0 " + " ".join(float(v).hex() for v in o["vals"]) + "\n"
+            o["vals"] = [((r1(v[0]), r1(v[1])) if cplx else r1(v)) for v in o["vals"]]
+            s += "setvals 0 " + G.fmt_vals(o["vals"], cplx, single) + "\n"
             s += "permc_get 0 %d\n" % o["colperm"]
             s += "gssvx 0 1 %d 0 0 0 0 %s %d %d 0 0\n" % (o["P"], float(o["u"]).hex(), h["panel"], h["relax"])
         elif o["op"] == "refactor":
-            o["vals"] = [r1(v) for v in o["vals"]]
-            s += "setvals 0 " + " ".join(float(v).hex() for v in o["vals"]) + "\n"
+            o["vals"] = [((r1(v[0]), r1(v[1])) if cplx else r1(v)) for v in o["vals"]]
+            s += "setvals 0 " + G.fmt_vals(o["vals"], cplx, single) + "\n"
             s += "gssvx 0 1 %d 0 0 1 %d %s %d %d 0 0\n" % (o["P"], o["usepr"], float(o["u"]).hex(), h["panel"], h["relax"])
         else:
             s += "gssvx 0 1 %d 2 %d 0 0 0x1p+0 %d %d 0 0\n" % (o["P"], o["trans"], h["panel"], h["relax"])
@@ -137,15 +164,15 @@ def lu_signature(res):
             tuple((tuple(r), tuple(v)) for r, v in res.get("Ucol", [])), tuple(tuple(s["rows"]) for s in res.get("Lsup", []) if s))
 
 
-def run_histories(ctx, nh, flavour="plain"):
+def run_histories(ctx, nh, flavour="plain", seed_salt=0):
     """-> (stats, violations[list of (key, what, blob)])"""
     C.build_lib(flavour)
-    exes = C.build_harness_all_prec("h_drv.c", flavour, precs="ds")
-    rng = random.Random(ctx.seed * 8191 + 8)
+    exes = C.build_harness_all_prec("h_drv.c", flavour, precs="dszc")
+    rng = random.Random(ctx.seed * 8191 + 8 + seed_salt)
     hs = []
     nfb = nh // 3
     for i in range(nh + nfb):
-        h = gen_fallback_history(rng, "h%d" % i, prec=rng.choice("dds")) if i >= nh else gen_history(rng, "h%d" % i, prec=rng.choice("dds"))
+        h = gen_fallback_history(rng, "h%d" % i, prec=rng.choice("dszc")) if i >= nh else gen_history(rng, "h%d" % i, prec=rng.choice("ddsszc"))
         s, rhs = script_of(h, rng)
         h["script"] = s; h["rhs"] = rhs
         hs.append(h)
@@ -155,7 +182,7 @@ def run_histories(ctx, nh, flavour="plain"):
     with ThreadPoolExecutor(C.NPROC) as ex:
         outs = list(ex.map(one, hs))
     stats = {"histories": nh + nfb, "fallback_family_histories": nfb, "calls": 0, "refactor_calls": 0, "usepr_kept": 0, "usepr_fell_back": 0, "factored_solves": 0, "lu_judged": 0}
-    viol = []; lutexts = []; luowners = {}
+    viol = []; lutexts = []; clutexts = []; luowners = {}
     for h, (ops, done, rc, err) in zip(hs, outs):
         M = h["M"]; n = M.n
         blob = {"history": [{k: v for k, v in o.items() if k != "vals"} for o in h["ops"]], "n": n, "prec": h["prec"], "script": h["script"], "rc": rc, "stderr": (err or "")[-500:]}
@@ -169,11 +196,11 @@ def run_histories(ctx, nh, flavour="plain"):
             stats["calls"] += 1
             if o["op"] != "solve":
                 cur_vals = o["vals"]
-            Mc = G.Mat(n, M.colptr, M.rowind, list(cur_vals))
+            Mc = G.Mat(n, M.colptr, M.rowind, list(cur_vals), M.cplx)
             if res["info"] not in (0, n + 1):
                 viol.append(("info", "call %d (%s) returned info=%d on a nonsingular matrix" % (idx, o["op"], res["info"]), blob)); break
             # solution of the values current at this call
-            x = S.unpack_cols(res["X"], n, n, 1, False)[0]
+            x = S.unpack_cols(res["X"], n, n, 1, M.cplx)[0]
             tr = o.get("trans", 0)
             om = X.backward_error(Mc, x, b, tr)
             tol = Fraction(1000 * (n + 1)) * Fraction(U[h["prec"]])
@@ -187,9 +214,9 @@ def run_histories(ctx, nh, flavour="plain"):
                     viol.append(("factored-not-readonly", "call %d: solve with FACTORED changed A, L, U or a permutation" % idx, blob)); break
             else:
                 # factorization of current values: judge with the verified checker
-                rec = {"cfg": {"t": len(lutexts), "n": n, "prec": h["prec"], "stype": "NC", "driver": "gssvx", "u": o["u"], "nrhs": 0, "ld": n}, "res": res, "info": res["info"]}
+                rec = {"cfg": {"t": len(lutexts) + len(clutexts), "n": n, "prec": h["prec"], "stype": "NC", "driver": "gssvx", "u": o["u"], "nrhs": 0, "ld": n}, "res": res, "info": res["info"]}
                 try:
-                    lutexts.append(S.lucase_for(rec, Mc, []))
+                    (clutexts if M.cplx else lutexts).append(S.lucase_for(rec, Mc, []))
                     luowners["c%d" % rec["cfg"]["t"]] = (h, idx, blob, o)
                 except D.NonFinite:
                     viol.append(("nonfinite", "call %d produced non-finite factors" % idx, blob)); break
@@ -205,17 +232,20 @@ def run_histories(ctx, nh, flavour="plain"):
                             viol.append(("usepr-pivots-not-reused", "call %d: pivot reuse requested, old pivots admissible (same/scaled values, same threshold) but perm_r changed" % idx, blob)); break
                 prev_permr = res["perm_r"]
             prev_sig = sig
-    if lutexts:
+    if lutexts or clutexts:
         verd = {}
         chunks = ["".join(lutexts[i:i + 100]) for i in range(0, len(lutexts), 100)]
         with ThreadPoolExecutor(C.NPROC) as ex:
             for out in ex.map(lambda t: C.run_sludrv("lucheck", t), chunks):
                 verd.update(D.parse_verdicts(out))
+            cchunks = ["".join(clutexts[i:i + 100]) for i in range(0, len(clutexts), 100)]
+            for out in ex.map(lambda t: C.run_sludrv("clucheck", t), cchunks):
+                verd.update(D.parse_verdicts(out))
         for cid, (h, idx, blob, o) in luowners.items():
             v = verd.get(cid)
             stats["lu_judged"] += 1
             if v is None: continue
-            fails = [f for f in ("wfL", "wfU", "permr", "permc", "lower", "upper", "lu", "mult") if v.get(f) != "1"]
+            fails = [f for f in ("wfL", "wfU", "permr", "permc", "lower", "upper", "lu", "mult") if v.get(f) not in (("1", "-") if (h["M"].cplx and f == "mult") else ("1",))]
             if fails:
                 viol.append(("factorization-of-current-values:" + ",".join(fails), "call %d (%s): returned factors are not a factorization of the values current at that call (%s)" % (idx, o["op"], fails), blob))
     return stats, viol
@@ -229,10 +259,10 @@ def probe_script(rng, prec):
     n = rng.choice([3, 5, 9, 14, 30, 60])
     M = G.random_matrix(rng, n, rng.choice(["random", "band", "grid"]), "float")
     M.vals = new_values(rng, M)
-    if prec == "s": G.round_single(M)
-    b = rand_rhs(rng, n, prec == "s")
+    M = to_prec(rng, M, prec)
+    b = rhs_prec(rng, n, prec)
     drv = rng.choice(["gssv", "gssvx", "gssvx_user", "gssvx_user"])
-    s = G.script_mat(0, M, single=(prec == "s")) + G.script_rhs(0, n, 1, n, [b], False, prec == "s") + "permc_get 0 %d\n" % rng.randint(0, 3)
+    s = G.script_mat(0, M, single=(prec in "sc")) + G.script_rhs(0, n, 1, n, [b], prec in "cz", prec in "sc") + "permc_get 0 %d\n" % rng.randint(0, 3)
     if drv == "gssv":
         return s, "gssv 0 0 1\n", None, None
     fact, trans = rng.choice([0, 1]), rng.choice([0, 1])
@@ -248,15 +278,15 @@ def prefix_script(rng, prec):
         kind = rng.choice(["other_size", "singular", "illegal", "query", "userwork", "userwork", "userwork_big", "history", "destroy"])
         n = rng.choice([2, 4, 7, 11, 20]) if kind != "userwork_big" else rng.choice([40, 80, 120])
         M = G.random_matrix(rng, n, None, "float"); M.vals = new_values(rng, M)
-        if prec == "s": G.round_single(M)
-        b = rand_rhs(rng, n, prec == "s")
-        base = G.script_mat(1, M, single=(prec == "s")) + G.script_rhs(1, n, 1, n, [b], False, prec == "s") + "permc_get 1 %d\n" % rng.randint(0, 3)
+        M = to_prec(rng, M, prec)
+        b = rhs_prec(rng, n, prec)
+        base = G.script_mat(1, M, single=(prec in "sc")) + G.script_rhs(1, n, 1, n, [b], prec in "cz", prec in "sc") + "permc_get 1 %d\n" % rng.randint(0, 3)
         if kind == "other_size":
             parts.append(base + "gssv 1 1 %d\n" % rng.choice([1, 2, 4]))
         elif kind == "singular":
             k = rng.randrange(n)
-            for q in range(M.colptr[k], M.colptr[k + 1]): M.vals[q] = 0.0
-            parts.append(G.script_mat(1, M, single=(prec == "s")) + G.script_rhs(1, n, 1, n, [b], False, prec == "s") + "permc_get 1 0\ngssvx 1 1 1 0 0 0 0 0x1p+0 4 2 0 0\n")
+            for q in range(M.colptr[k], M.colptr[k + 1]): M.vals[q] = (0.0, 0.0) if M.cplx else 0.0
+            parts.append(G.script_mat(1, M, single=(prec in "sc")) + G.script_rhs(1, n, 1, n, [b], prec in "cz", prec in "sc") + "permc_get 1 0\ngssvx 1 1 1 0 0 0 0 0x1p+0 4 2 0 0\n")
         elif kind == "illegal":
             parts.append(base + "gssv 1 1 0\n")
         elif kind == "query":
@@ -275,12 +305,12 @@ def prefix_script(rng, prec):
 
 def run_differential(ctx, npairs, flavour="plain"):
     C.build_lib(flavour)
-    exes = C.build_harness_all_prec("h_drv.c", flavour, precs="ds")
+    exes = C.build_harness_all_prec("h_drv.c", flavour, precs="dszc")
     rng = random.Random(ctx.seed * 524287 + 18)
     from concurrent.futures import ThreadPoolExecutor
     pre = []
     for i in range(npairs):
-        prec = rng.choice("ds")
+        prec = rng.choice("ddsszc")
         setup, call, query, headroom = probe_script(rng, prec)
         prefix = prefix_script(rng, prec)
         head = "ienv %d %d 200 200 100 -50 -50 -30\n" % (rng.choice([1, 8]), rng.choice([1, 6]))
@@ -303,7 +333,13 @@ def run_differential(ctx, npairs, flavour="plain"):
             else:
                 call = call + "%d\n" % int(e * headroom); tight += 1
         probe = setup + call
-        jobs.append((prec, head + probe + "quit\n", head + prefix + probe + "quit\n", prefix))
+        # the caller's buffer is part of the history too: after the prefix the probe gets a buffer with the 0xA5 fill (as in the fresh run),
+        # one holding arbitrary small integers (an earlier, unrelated use), or the very buffer the last user-workspace call of the prefix
+        # left behind (when it is large enough)
+        wf = ""
+        if "gssvx" in call and not call.rstrip().endswith(" 0"):
+            wf = rng.choice(["", "workfill 1 %d\n" % rng.randint(1, 10 ** 6), "workfill 1 %d\n" % rng.randint(1, 10 ** 6), "workfill 3 0\n"])
+        jobs.append((prec, head + probe + "quit\n", head + prefix + wf + probe + "quit\n", prefix))
     from concurrent.futures import ThreadPoolExecutor
     def one(j):
         prec, a, b, prefix = j
